@@ -1,3 +1,4 @@
+import RagcModel.Gen.Tables
 import RagcModel.Model.Kmer
 import RagcModel.Lemmas.Kmer
 /-!
@@ -312,5 +313,25 @@ example :
     let w : List UInt64 := [3,3,3,3,3,3,3,3,3,3,3,3,3,3,3,3,3,3,3,3,3,3,3,3,3,3,3,3,3,3,3,2]
     (feed (new 32) ([0, 1] ++ w)).dir = 0xFFFFFFFFFFFFFFFE
       ∧ (feed (new 32) ([0, 1] ++ w)).rc = 0x4000000000000000 := by decide
+
+/-! ### translator tie: `reverse_complement` as translated from kmer.rs on every run -/
+
+/-- The hand-written `rcBase` of the model is the function `tools/gen_tables.py` translates from the
+    text of `kmer.rs::reverse_complement` (for every 64-bit argument). -/
+theorem rcBase_is_translated (b : UInt64) : (rcBase b).toNat = Ragc.Gen.kmerRcBase b.toNat := by
+  unfold rcBase Ragc.Gen.kmerRcBase
+  by_cases h0 : b = 0
+  · subst h0; decide
+  by_cases h1 : b = 1
+  · subst h1; decide
+  by_cases h2 : b = 2
+  · subst h2; decide
+  by_cases h3 : b = 3
+  · subst h3; decide
+  have n0 : b.toNat ≠ 0 := fun h => h0 (UInt64.toNat_inj.mp (by simpa using h))
+  have n1 : b.toNat ≠ 1 := fun h => h1 (UInt64.toNat_inj.mp (by simpa using h))
+  have n2 : b.toNat ≠ 2 := fun h => h2 (UInt64.toNat_inj.mp (by simpa using h))
+  have n3 : b.toNat ≠ 3 := fun h => h3 (UInt64.toNat_inj.mp (by simpa using h))
+  simp [h0, h1, h2, h3, n0, n1, n2, n3]
 
 end Ragc.Props.C20
